@@ -9,13 +9,14 @@ Names == <<"n1", "n2", "n3">>
 LayerAlphabet ==
   {[kind |-> k, bias |-> b, act |-> a] : k \in {"Conv1D", "Dense"} \cup SepKinds, b \in BOOLEAN, a \in {"linear", "relu"}}
   \cup {[kind |-> k, bias |-> b, act |-> "tanh"] : k \in RnnKinds, b \in BOOLEAN}
-  \cup {[kind |-> k, bias |-> FALSE, act |-> "linear"] : k \in PoolKinds \cup {"ReLU"}}
+  \cup {[kind |-> k, bias |-> FALSE, act |-> "linear"] : k \in PoolKinds \cup {"ReLU"} \cup UserKinds}
 Models == UNION {{[j \in 1..n |-> [name |-> Names[j], kind |-> f[j].kind, bias |-> f[j].bias, act |-> f[j].act]] :
                     f \in [1..n -> LayerAlphabet]} : n \in 1..MaxLen}
 NameEntries(l) == CASE l.kind \in {"Conv1D", "Dense"} -> {"absent", "empty", "A", "B"}
                     [] l.kind \in RnnKinds -> {"absent", "empty", "A", "B", "R"}
                     [] l.kind \in SepKinds -> {"absent", "empty", "SP"}
                     [] l.kind \in PoolKinds -> {"absent", "empty", "P", "PB"}
+                    [] l.kind \in UserKinds -> {"absent"}
                     [] OTHER -> {"absent", "S", "D"}
 ClassKeys == {QNameX(k) : k \in {"Conv1D", "Dense", "ReLU"} \cup RnnKinds \cup SepKinds \cup PoolKinds}
 Keys == ClassKeys \cup {"n1", "n2", "n3"}
@@ -30,8 +31,9 @@ Choose == /\ phase = 0 /\ phase' = 1 /\ model' = model
                 /\ (Len(model) >= 2 /\ model[2].kind = model[1].kind) => c2 = c1
                 /\ dict' = [k \in Keys |->
                               IF k = "n1" THEN e1 ELSE IF k = "n2" /\ Len(model) >= 2 THEN e2
-                              ELSE IF k = QNameX(model[1].kind) THEN c1
-                              ELSE IF Len(model) >= 2 /\ k = QNameX(model[2].kind) THEN c2 ELSE "absent"]
+                              ELSE IF model[1].kind \notin UserKinds /\ k = QNameX(model[1].kind) THEN c1
+                              ELSE IF Len(model) >= 2 /\ model[2].kind \notin UserKinds /\ k = QNameX(model[2].kind) THEN c2
+                              ELSE "absent"]
 Next == Choose
 Spec == Init /\ [][Next]_vars
 Res == DesignQuantizeX(dict, model)
